@@ -176,7 +176,7 @@ def two_post(rng, st):
     s = rng.choice(list(X.COMMS))
     dec = X.COMMS[s][1]
     a = X.Amt.rand(rng, s, dec)
-    k = rng.randrange(12)
+    k = rng.randrange(13)
     if k == 10 and rng.random() < 0.8:      # zero amounts are finding F8: keep them rare
         k = rng.choice([0, 1, 3, 4])
     A, B = rng.sample(X.ACCTS + UNUSUAL_ACCTS, 2)
@@ -206,6 +206,33 @@ def two_post(rng, st):
             ps = [XPost(A, 'R', units, ('u', price)), XPost(B, 'R', X.Amt(-price.value * units.value, 2, y))]
         else:
             ps = [XPost(A, 'R', units, ('t', price)), XPost(B, 'R', X.Amt(-price.value if units.value > 0 else price.value, 2, y))]
+    elif k == 12:   # a same-commodity pair with WRITTEN costs on both legs (a transfer that notes the price): both amounts
+        # must be printed - a cost cannot follow an amount that was left out
+        y = rng.choice([c for c in X.COMMS if c != s])
+        dec_u = X.COMMS[s][1]
+        units = X.Amt(F(rng.randrange(1, 99999), 10 ** dec_u), dec_u, s)
+        pu = F(rng.randrange(1, 99999), 100)
+        tot = pu * units.value
+        td = 2
+        while tot * 10 ** td != int(tot * 10 ** td):
+            td += 1
+        def leg(sign):
+            if rng.random() < 0.6:
+                return ('u', X.Amt(pu, 2, y))
+            return ('t', X.Amt(tot, td, y))
+        kd = rng.choice(['R', 'R', 'R', 'B'])
+        pre = 'BV:' if kd == 'B' else ''
+        ps = [XPost(pre + A, kd, units, leg(1)), XPost(pre + B, kd, units.neg(), leg(-1))]
+        if rng.random() < 0.25:
+            ps[0].cvirt = ps[1].cvirt = True
+        if rng.random() < 0.2:      # and with the same lot on both legs
+            lot = X.Amt(pu, 2, y)
+            ps[0].lot = ps[1].lot = lot
+        x = XXact(ps)
+        x.keep_cost_marks = rng.random() < 0.5
+        if rng.random() < 0.2:
+            ps.reverse()
+        return x
     elif k == 8:    # two commodities, implied rate (costs calculated): no elision
         y = rng.choice([c for c in X.COMMS if c != s])
         ps = [XPost(A, 'R', a), XPost(B, 'R', X.Amt.rand(rng, y).neg())]
@@ -587,7 +614,7 @@ def split_amount_expr(s):
         assigned = m.group(1).strip()
         s = s[:m.start()]
     cost = None
-    m = re.search(r'\s(\(@@?\)|@@?)\s+(.*)$', s)
+    m = re.search(r'(?:^|\s)(\(@@?\)|@@?)\s+(.*)$', s)
     if m:
         op = m.group(1)
         cost = (('t' if '@@' in op else 'u') + ('v' if op.startswith('(') else ''), m.group(2).strip())
@@ -640,22 +667,25 @@ def tokenize_print(text):
             rest = ''
         else:
             rest = re.split(r'\s\s;', rest, 1)[0].strip()
-        parts = split_amount_expr(rest) if rest else dict(amt=None, ann='', cost=None, assigned=None)
-        amt = lot = '-'
-        if parts['amt'] is not None:
-            a = parse_amount_text(parts['amt'])
-            key = canon_key(a[0], parts['ann']) or ''
-            amt = show_tok_amt(a, key)
-            m = re.search(r'\{=?\s*([^}]*)\}', parts['ann'])
-            if m:
-                la = parse_amount_text(m.group(1).strip())
-                lot = '%s:%s/%s' % (la[0], la[1].numerator, la[1].denominator)
-        cost = '-'
-        if parts['cost']:
-            cost = parts['cost'][0] + ' ' + show_tok_amt(parse_amount_text(parts['cost'][1]))
-        assigned = '-'
-        if parts['assigned']:
-            assigned = show_tok_amt(parse_amount_text(parts['assigned']))
+        try:
+            parts = split_amount_expr(rest) if rest else dict(amt=None, ann='', cost=None, assigned=None)
+            amt = lot = '-'
+            if parts['amt'] is not None:
+                a = parse_amount_text(parts['amt'])
+                key = canon_key(a[0], parts['ann']) or ''
+                amt = show_tok_amt(a, key)
+                m = re.search(r'\{=?\s*([^}]*)\}', parts['ann'])
+                if m:
+                    la = parse_amount_text(m.group(1).strip())
+                    lot = '%s:%s/%s' % (la[0], la[1].numerator, la[1].denominator)
+            cost = '-'
+            if parts['cost']:
+                cost = parts['cost'][0] + ' ' + show_tok_amt(parse_amount_text(parts['cost'][1]))
+            assigned = '-'
+            if parts['assigned']:
+                assigned = show_tok_amt(parse_amount_text(parts['assigned']))
+        except ValueError as e:      # text print should never write: kept as a token no model line can equal
+            amt, lot, cost, assigned = '?unparsed %s' % rest, '-', '-', '-'
         res[cur].append('%s|%s|%s|%s|%s|%s|%s' % (acct.encode().hex(), kind, mark, amt, lot, cost, assigned))
     return res
 
@@ -795,6 +825,8 @@ def features(x):
     for p in x.posts:
         if p.cost:
             f.add('cost-' + p.cost[0] + ('-virtual' if p.cvirt else ''))
+            if len(x.posts) == 2 and all(q.cost and q.amt is not None and q.amt.sym == p.amt.sym for q in x.posts):
+                f.add('pair-same-commodity-both-costs')
         if p.lot:
             f.add('lot')
         if p.lotdate or p.lottag:
@@ -936,6 +968,16 @@ def run_one(ctx, res, j, xs, text, path, out_reg, model, layout_cases, idem_case
         res.disagreements.append(dict(name='C06/print-error', case=text, impl='print succeeds', model=mm[model_perr[0]][0]))
         return
     toks = tokenize_print(Ptext)
+    # ---- oracle 0a (journal syntax): what follows the account on a posting line is `AMOUNT [@ COST] [= ASSIGNED]`; a cost
+    # without the amount it prices is not a posting the reader accepts
+    for i, x in enumerate(xs):
+        for t in toks.get(i, []):
+            f = t.split('|')
+            if f[3].startswith('?unparsed') or (f[3] == '-' and f[5] != '-'):
+                res.violations.append(dict(key='print-line:cost-without-amount' if f[5] != '-' else 'print-line:unparsable',
+                                           desc='x%d: the posting line for %s reads %r' % (i, bytes.fromhex(f[0]).decode('utf-8', 'replace'), t),
+                                           case=dict(journal=text, printed=Ptext, xact=i), observed=t,
+                                           required='an amount before any cost'))
     # ---- oracle 0b (cost details): the cost text of a printed posting denotes the cost AS WRITTEN - same kind of mark
     # (a per-unit cost on a zero amount may only be shown as the total, which is then zero), same (virtual) marking,
     # exactly the written number and commodity - whatever finalize made of the posting's cost (lot basis, gain/loss)
@@ -1048,7 +1090,7 @@ def run_one(ctx, res, j, xs, text, path, out_reg, model, layout_cases, idem_case
         msg = err2.decode('utf-8', 'replace')
         cls = 'NullLeft' if 'There cannot be null amounts after balancing' in msg else \
             'Unbalanced' if 'does not balance' in msg else 'TwoNulls' if 'Only one posting with null amount' in msg else \
-            'AssertOff' if 'Balance assertion off by' in msg else 'Other'
+            'AssertOff' if 'Balance assertion off by' in msg else 'BadAmount' if 'No quantity specified for amount' in msg else 'Other'
         inexact = any(p.cost and p.cost[0] == 'u' and p.cost[1].dec > X.COMMS[p.cost[1].sym][1] for x in xs for p in x.posts)
         res.violations.append(dict(
             key='reread-fails:' + cls + (':virtual-pair-elided' if (virt_pair and cls == 'NullLeft') else '') +
@@ -1197,7 +1239,7 @@ def run(ctx, n_override=None):
     rng = ctx.rng
     res = lib.Result()
     res.rule = ('accepted journals of 3-10 transactions: two-posting shapes around the elision (real, [balanced], (virtual) pairs, '
-                'different written precision, equal lots, first/second elided in the source, costs, implied rate, zero amounts), exactly '
+                'different written precision, equal lots, a same-commodity pair with written costs on both legs, first/second elided in the source, costs, implied rate, zero amounts), exactly '
                 'balanced multi-commodity transactions with @/@@/(@) costs and virtual postings, one elided amount, excess-precision per-unit '
                 'costs at the half-unit boundary, lot sales with {price} [date] (tag), postings with both a lot price and a written cost (@ / @@ / (@) / (@@), equal to or different from lot price x quantity, sales and purchases), balance assignments/assertions, also on accounts whose running total carries a residue below the display precision (an elided leg of a per-unit cost with 3 or 4 decimals, followed by an assignment on that account), `0 X @ price`; in 30% of the journals a bucket directive (`A`, `bucket`, `account` + `default`; a third of them inside `apply account ROOT`) with single-posting transactions marked `*`/`!` on the header and/or the posting, real, [balanced] or (virtual), with or without a cost; '
                 'account names of 30..45 characters placed around the account column of print (column-3 .. column+0, the longest at the column) with amounts of 9..14 and more characters, so that every gap 0..3 between name and amount occurs; decorated with states on transactions and postings (also a posting mark that differs from the mark of its transaction), codes, auxiliary dates, notes, tags, key: value metadata and unusual '
